@@ -151,6 +151,10 @@ func (c *clientService) TerminateSession(clientID string) {
 		return
 	}
 	if _, ok := c.srv.offlineClients[clientID]; ok {
+		// The session ends now: a delayed will message that is still pending must be sent now, not when its timer fires.
+		if w, ok := c.srv.willMessage[clientID]; ok {
+			w.signal(true)
+		}
 		err := c.srv.sessionTerminatedLocked(clientID, NormalTermination)
 		if err != nil {
 			err = fmt.Errorf("session terminated fail: %s", err.Error())
